@@ -15,7 +15,7 @@ pub fn def() -> PropDef {
             "quiescent = commit returned, merges joined (wait_merging_threads) and garbage_collect_files().wait() returned",
             "the harness never holds an IndexMeta/SegmentMeta across a collection (they pin files through the inventory)",
         ],
-        subs: vec![Box::new(HistQ)],
+        subs: vec![Box::new(HistQ), Box::new(super::c01::Crash { orphans: true })],
     }
 }
 
@@ -26,7 +26,7 @@ impl Sub for HistQ {
         "hist"
     }
     fn cases(&self, tier: Tier) -> u32 {
-        tier.pick(2000, 40000)
+        tier.pick(1000, 40000)
     }
     fn max_shrink_iters(&self) -> u32 {
         1500
